@@ -21,7 +21,8 @@ pub struct C20;
 #[derive(Clone, Debug)]
 enum Xf {
     Renumber { start: u16, step: u16, jitter: u64 },
-    InsertRem { at: usize, tick: bool },
+    /// `land`: branches that aimed at the following line now aim at the remark (and fall through)
+    InsertRem { at: usize, tick: bool, land: bool },
     InsertEmpty { at: usize },
     Split { line: usize, at: usize },
     AppendUnreachable,
@@ -53,13 +54,13 @@ fn apply(p: &mut Program, origin: &mut Vec<Option<usize>>, xf: &Xf) {
                 }
             }
         }
-        Xf::InsertRem { at, tick } => insert_line(p, origin, *at, vec![Stmt::Rem("layout".into(), *tick)]),
-        Xf::InsertEmpty { at } => insert_line(p, origin, *at, vec![Stmt::Raw(":".into())]),
+        Xf::InsertRem { at, tick, land } => insert_line(p, origin, *at, vec![Stmt::Rem("layout".into(), *tick)], *land),
+        Xf::InsertEmpty { at } => insert_line(p, origin, *at, vec![Stmt::Raw(":".into())], false),
         Xf::Split { line, at } => {
             if *line < p.lines.len() && *at > 0 && *at < p.lines[*line].stmts.len() {
                 let tail: Vec<Stmt> = p.lines[*line].stmts.split_off(*at);
                 let o = origin[*line];
-                insert_line(p, origin, *line + 1, tail);
+                insert_line(p, origin, *line + 1, tail, false);
                 origin[*line + 1] = o;
             }
         }
@@ -83,14 +84,14 @@ fn apply(p: &mut Program, origin: &mut Vec<Option<usize>>, xf: &Xf) {
     }
 }
 
-fn insert_line(p: &mut Program, origin: &mut Vec<Option<usize>>, at: usize, stmts: Vec<Stmt>) {
+fn insert_line(p: &mut Program, origin: &mut Vec<Option<usize>>, at: usize, stmts: Vec<Stmt>, land: bool) {
     let at = at.min(p.lines.len());
     p.lines.insert(at, Line { num: 0, stmts });
     origin.insert(at, None);
     // a jump to line `at` must still reach the statement that used to be there: targets >= at shift
     map_targets(p, &mut |t| {
         if let Target::L(i) = t {
-            if *i >= at {
+            if *i > at || (*i == at && !land) {
                 *i += 1;
             }
         }
@@ -513,6 +514,7 @@ impl Property for C20 {
                         Xf::InsertRem {
                             at: rng.usize(len),
                             tick: rng.pct(30),
+                            land: rng.pct(40),
                         }
                     }
                     5 => {
@@ -602,7 +604,7 @@ impl Property for C20 {
         }
     }
     fn rule(&self) -> &'static str {
-        "one evaluation = either (60%) a generated program rendered under two layouts (1-5 transformations: monotone renumbering with seeded gaps, inserted REM / ':'-only lines, multi-statement lines split into consecutive lines, unreachable lines appended) and run to completion with CONT on twin runtimes, transcripts and final variables compared with reported line numbers mapped back to the original statement; or (40%) a direct statement list (FOR..NEXT, WHILE..WEND, IF..THEN..ELSE, simple statements, no line references) typed into a fresh runtime and compared with the same list typed with a small / large / compile-error-carrying resident program after 0-3 other direct lines (failed, with loops, with syntax errors), or as the one-line program `10 <list>` + RUN; distinct = distinct pair of log fingerprints"
+        "one evaluation = either (60%) a generated program rendered under two layouts (1-5 transformations: monotone renumbering with seeded gaps, inserted REM / ':'-only lines (a remark may take over the branches that aimed at the line it precedes), multi-statement lines split into consecutive lines, unreachable lines appended) and run to completion with CONT on twin runtimes, transcripts and final variables compared with reported line numbers mapped back to the original statement; or (40%) a direct statement list (FOR..NEXT, WHILE..WEND, IF..THEN..ELSE, simple statements, no line references) typed into a fresh runtime and compared with the same list typed with a small / large / compile-error-carrying resident program after 0-3 other direct lines (failed, with loops, with syntax errors), or as the one-line program `10 <list>` + RUN; distinct = distinct pair of log fingerprints"
     }
     fn assumptions(&self) -> Vec<&'static str> {
         vec![
